@@ -29,7 +29,10 @@ CLAIMED = {
             "utility cascade differ by the net utility duty for ANY duties/levels and are >= 0; hence the total-site record is balanced "
             "whenever each zone's utilities sum to its targets (C03). Tie: EVERY record the service returns is judged in coqc against the "
             "duties of the input streams it covers (targets and listed hot/cold utility duties).",
-            "As C01. Total-site balance is conditional on C03's conclusion per zone (open finding D24: gliding cold user utilities)."),
+            "As C01. Total-site balance is also proved from DATA hypotheses only (per zone: Robust GCC with a pinch, utilities gridded on the "
+            "pocket-free table, one extreme hot and one extreme cold utility): total-process record exactly balanced, total-site record "
+            "balanced to 2n*tol; the exact zonal sum is refuted for sub-tol demand (witness), so the slack is real. Gliding cold user "
+            "utilities fall outside those hypotheses (open finding D24)."),
     "C09": ("DESIGN.md 8/C09",
             "Theorems on the model of the site utility cascade (max(h)-h on the cascade of the summed utilities), any utility sets: Qh_TS <= "
             "total hot-utility duty, Qc_TS <= total cold-utility duty; if the utilities release at every temperature at least the site's net "
@@ -38,7 +41,11 @@ CLAIMED = {
             "identity; duties additive over partitions. Tie: the three site records and all zonal DI "
             "records of every generated site are judged in coqc: additivity value-by-value and utility-by-utility, both bounds, the site DI "
             "record against the exact reference, recovery identity.",
-            "As C01; the lower bound theorem is conditional on C04 feasibility (open findings D24/D39 for gliding user utilities)."),
+            "As C01; the lower bound is now proved from data hypotheses only: Qh_TS >= Qh*(site) - 2n*tol and Qc_TS >= Qc*(site) - 4n*tol for n "
+            "zones (per zone: Robust GCC with a pinch, utilities gridded on the pocket-free table, one extreme hot and one extreme cold "
+            "utility; that the GCC column is the exact residual and that end points are rows is derived for the stage model); C04 "
+            "feasibility and C03 sums are derived, not assumed; two-zone example with inter-zone recovery. Gliding user utilities stay "
+            "outside (open findings D24/D39); site-grid rows closer than the window: D44."),
     "C12": ("DESIGN.md 8/C12",
             "Theorems: the exact net-deficit function is invariant at every temperature under permutation of streams, splitting a stream at "
             "an intermediate temperature or into parallel branches, translates with a uniform shift, scales with the duties, and under "
@@ -123,8 +130,10 @@ CLAIMED = {
             "strictly descending with gaps > tol; old rows kept; count = rows added; widths and dH re-derived for all rows but the first after "
             "any effective call; idempotent; the invariant holds over histories. Tied to /repo by whole-matrix comparison (43 columns) after "
             "every call of random histories and of the pipeline's own calls, plus an independent predicate on the implementation's tables, in coqc.",
-            "Order-irrelevance only within one call (_partial; across-calls version refuted with a witness replayed on the code); first row's "
-            "width outside the statement; float rounding measured at 1e-9, not proved."),
+            "Across calls: same T column and count as one call under pairwise-tol spacing of the effective requests (needed: witness); "
+            "interpolated cells == for ANY two histories (no condition); first-row width characterised per call (4 cases) and as a history "
+            "invariant (stale, 0 or T0-T1). Still refuted: identity of heat-capacity / other cells across splits (witness replayed on the "
+            "code). Float rounding measured at 1e-9, not proved."),
     "C10": ("DESIGN.md 8/C10",
             "Theorems (closed) for ALL label lists on synthesised trees: construction total (counter and renaming loops never fail), generated "
             "unit-operation leaves fresh, every labelled stream in exactly one leaf / once per ancestor / nowhere else, per-zone identity, count "
@@ -159,7 +168,11 @@ CLAIMED = {
             "residual column equals Qh - exact net deficit on every row; a zero of the exact residual between two rows forces zeros "
             "on both rows. Tie: pinch_idx compared on random columns (tolerance-edge values classified fragile), and every reported "
             "temp_pinch is judged in coqc against the exact residual at the reported temperatures and at every stream/utility end point.",
-            "As C01; 'zero' on the implementation side means |exact residual| <= 2e-6 + 1e-9*scale; open finding D18 (all-zero residual)."),
+            "As C01; composed on the stage model (lattice inputs and arbitrary doubles via rounded streams): the reported (T_h, T_c) are rows "
+            "where the EXACT residual Qh* - Dnet lies in [0, tol), T_h >= T_c; every REAL temperature outside [T_c, T_h] with residual < tol "
+            "lies in a zero run reaching that end of the range or in the single interval next to the pinch row (exact zeros: only the "
+            "former); threshold ends; absent iff no row / every row is a zero (D18 kept). On the implementation side 'zero' means "
+            "|exact residual| <= 2e-6 + 1e-9*scale; the serialised temp_pinch and the zone's own EnergyTarget pinches are compared too."),
     "C14": ("DESIGN.md 8/C14",
             "Theorems (closed): stage guards return Ok on every input the earlier stages can produce (CP defined for every stream any setter "
             "sequence can build, linear_interpolation raises exactly when x1 = x2 and its call site never does, option sanitiser keeps "
